@@ -12,7 +12,6 @@ def timing_families(n):
         "many_statements": gen.big_file(random.Random(1), n // 40),
         "long_comment": ("/* " + "comment text " * (n // 13) + "*/\ninfo!(\"x\");\n").encode(),
         "nested_parens": ("fn f() { g(" * (n // 11) + ")" * (n // 11) + " }\n").encode(),
-        "macro_like": ("a!(k = x " * (n // 9) + "\n").encode(),
         "quotes": ("let s = \"x\"; " * (n // 13) + "\n").encode(),
         "colons": ("a::b::c::d::e " * (n // 15) + "\n").encode(),
     }
@@ -30,7 +29,7 @@ def run(rep, tier, seed, model_ok):
                        "unreadable file next to readable ones must be skipped and the others processed; (c) size-scaling "
                        "families of ordinary shape measured at two sizes: time must scale at most ~linearly. "
                        "Non-trivial = input that is not valid Rust")
-    mal = gen.malformed_files(rng, 1500 if quick else 20000)
+    mal = gen.malformed_files(rng, 1000 if quick else 20000) + gen.multibyte_window_files()
     ok_utf8 = [b for b in mal if _utf8(b)]
     dist = {"malformed": len(mal), "invalid_utf8": len(mal) - len(ok_utf8)}
     # (a) finder level
@@ -60,11 +59,11 @@ def run(rep, tier, seed, model_ok):
                                    lock=h2.lock_bytes(1000000), name="malformed"))
     corpus = h1.corpus_files()
     rng.shuffle(corpus)
-    corpus = corpus[:80 if quick else len(corpus)]
+    corpus = corpus[:40 if quick else len(corpus)]
     for i in range(0, len(corpus), 20):
         fs = [("c%d/%s" % (j, os.path.basename(p)), b) for j, (p, b) in enumerate(corpus[i:i + 20])]
         scs.append(h2.Scenario(fs, "edit", structured=bool(i % 2), name="corpus"))
-    big = gen.big_file(rng, 20000 if quick else 120000)
+    big = gen.big_file(rng, 6000 if quick else 120000)
     scs.append(h2.Scenario([("big.rs", big), ("bin.rs", b"\xff\xfe\x00info!(\"x\");"), ("ok.rs", b"fn f(){ info!(\"after the bad one\"); }\n")],
                            "edit", name="large+unreadable"))
     t0 = time.time()
